@@ -539,7 +539,7 @@ def run(ctx):
         resource.setrlimit(resource.RLIMIT_AS, (8 * 2 ** 30, old_as[1]))
     except Exception:
         pass
-    dyn_deadline = t_dyn + (55.0 if not ctx.thorough else 700.0)
+    dyn_deadline = t_dyn + (45.0 if not ctx.thorough else 700.0)
     for rnd in range(rounds):
         for nm in dyn_public:
             f = getattr(bct, nm)
